@@ -242,6 +242,9 @@ def run_check(prop, tier, replay=None):
             for o in outputs[:1]:
                 print(o[-3000:])
             return 2
+        if replay:
+            # A replay is not a run of the check: keep the committed evidence.
+            os.environ["VERIF_EVIDENCE_DIR"] = os.path.join(REPLAYS, "evidence-of-replays")
         new, known, cov = merge(prop, spec, tier if not replay else "quick", seed, results, wall, outputs)
         whats = known_what(prop)
         seen = set()
